@@ -143,6 +143,9 @@ func mkSource(file []byte, seekable bool, src faultio.Source) (io.Reader, *fault
 }
 
 func faultClass(d *specdec.File, p uint64) string {
+	if p >= uint64(len(d.Bytes)) {
+		return "error-where-eof-was-due"
+	}
 	if d.DataEndIdx >= 0 && p >= d.Records[d.DataEndIdx].End() {
 		return "error-in-summary-or-footer"
 	}
@@ -199,11 +202,17 @@ func checkC15(c C15Case, st *stats.Collector) error {
 	}
 	// 2. an I/O error at every byte position
 	classes := map[string]int64{}
-	for p := 0; p < len(file); p++ {
+	// position len(file) is the read after the last byte: the source reports an error where io.EOF was due
+	for p := 0; p <= len(file); p++ {
 		cl := faultClass(d, uint64(p))
 		for variant := 0; variant < 3; variant++ {
 			together := variant == 1
 			oneShot := variant == 2
+			if together && p == len(file) {
+				// the final bytes arriving together with an error: io.ReadFull itself reports success once
+				// the buffer is full (documented io semantics), so nothing can be demanded of its callers
+				continue
+			}
 			for i, r := range rs {
 				src, h := mkSource(file, r.seekable, faultio.Source{FailAt: p, Together: together, OneShot: oneShot})
 				got := r.run(src)
